@@ -12,6 +12,8 @@ Inductive case :=
 | CId (ssid : list N) (now : Z) (seq unique : N) (impl_id : bytes) (impl_ssid : list N) (impl_contract : N) (impl_time : Z)
 | CIdTime (before : bytes) (t : Z) (after : bytes) (impl_time : Z)
 | CIdOrder (a b : bytes)
+(* ids created concurrently: how many were equal to an earlier one, how many broke their creator's order *)
+| CIdStress (n dups disorder : N)
 | CSplit (f : list msg) (max : N) (h t : list msg)
 | CQueue (ops : list qop) (sent : list (list msg))
 (* concurrent publishers vs the flusher: the (publisher, sequence number) pairs in the order the
@@ -109,6 +111,7 @@ Definition check (c : case) : N :=
     bit (bytes_eqb (id_set_time before t) after) 1
     |+| bit (ures_eqb Z.eqb (id_time after) it) 1
     |+| (if ((id_offset <=? t) && (t <? id_offset + 4294967296))%Z then bit (Z.eqb it t) 2 else 0)
+  | CIdStress n dups disorder => bit ((dups =? 0) && (disorder =? 0)) 2
   | CIdOrder a b =>
     (* oracle: same prefix, later (time, seq) sorts strictly before; b was created after a *)
     match id_time a, id_time b with
